@@ -63,6 +63,20 @@ def scanWhile (p : Int → Bool) : List Int → Nat → Nat
   | [], sm => sm
   | x :: xs, sm => if p x then scanWhile p xs (sm + 1) else sm
 
+/-- the second loop of `next_map_subchunk` (NC02a fixed: a sub-chunk also ends where a valid entry is smaller than the
+    previous valid one), `xs` being `map_[sm:]`:
+    `while sm < len(map_) and map_[sm] - start < chunksize:`
+    `    if map_[sm] != invalid: (if map_[sm] < prev: break); prev = map_[sm]`
+    `    sm += 1` -/
+def scanAsc (inv start : Int) (cs : Nat) : Int → List Int → Nat → Nat
+  | _, [], sm => sm
+  | prev, x :: xs, sm =>
+    if x - start < (cs : Int) then
+      if x != inv then
+        if x < prev then sm else scanAsc inv start cs x xs (sm + 1)
+      else scanAsc inv start cs prev xs (sm + 1)
+    else sm
+
 /-- `next_map_subchunk(map_, sm, invalid, chunksize)` -/
 def nextMapSubchunk (m : List Int) (sm : Nat) (inv : Int) (cs : Nat) : Nat :=
   -- while sm < len(map_) and map_[sm] == invalid: sm += 1
@@ -71,8 +85,8 @@ def nextMapSubchunk (m : List Int) (sm : Nat) (inv : Int) (cs : Nat) : Nat :=
   match m[sm1]? with
   | none => sm1
   | some start =>
-    -- while sm < len(map_) and map_[sm] - start < chunksize: sm += 1
-    scanWhile (fun x => decide (x - start < (cs : Int))) (m.drop sm1) sm1
+    -- prev = start; while sm < len(map_) and map_[sm] - start < chunksize: …
+    scanAsc inv start cs start (m.drop sm1) sm1
 
 structure SC where
   sm : Nat
